@@ -36,8 +36,17 @@ def g_dir():
     G.append(Grammar('interl', ['L', 'I'], ['a', 'b'], 'L', [('L', ['I']), ('I', ['a']), ('L', ['L', 'I']), ('I', ['b'])], note='rules of different nonterminals interleaved: declaration order differs from the order sorted by left side'))
     G.append(Grammar('nulfirst', ['S', 'B', 'X', 'N'], ['b', 'c', 'd', 'n'], 'S', [('S', ['B', 'X', 'd']), ('B', ['b']), ('X', []), ('X', ['N', 'c']), ('N', []), ('N', ['n'])],
                      note='a nullable rule declared before a rule that starts with another nullable nonterminal; FIRST of the tail is a lookahead source'))
+    G.append(Grammar('lrnul', ['S', 'B', 'A'], ['b', 'c'], 'S', [('S', ['B', 'A']), ('B', ['c']), ('A', ['A', 'b']), ('A', [])],
+                     note='a nullable, directly left-recursive nonterminal right after another nonterminal: FIRST(A) must contain what follows the leading A'))
+    G.append(Grammar('lrnul2', ['S', 'B', 'A', 'E'], ['b', 'c', 'd'], 'S', [('S', ['B', 'A', 'd']), ('B', ['c']), ('A', ['A', 'b']), ('A', ['E']), ('E', [])], note='same, nullable through a second nonterminal'))
+    G.append(Grammar('firstchain', ['S', 'B', 'A', 'C', 'D'], ['b', 'c', 'd', 'e'], 'S', [('S', ['B', 'A', 'd']), ('B', ['b']), ('A', ['C', 'D']), ('C', []), ('C', ['c']), ('D', []), ('D', ['e'])],
+                     note='FIRST through a chain of nullable nonterminals after a nonterminal'))
+    G.append(Grammar('firstmut', ['S', 'B', 'A', 'C'], ['a', 'b', 'c', 'd'], 'S', [('S', ['B', 'A', 'd']), ('B', ['b']), ('A', []), ('A', ['C', 'a']), ('C', []), ('C', ['A', 'c'])],
+                     note='FIRST of mutually left-recursive nullable nonterminals'))
     G.append(Grammar('dflt', ['S', 'A', 'B'], ['a', 'b', 'c'], 'S', [('S', ['A', 'B'], {'f': 'default'}), ('A', ['a']), ('A', ['a', 'A'], {'f': 'default'}), ('B', ['b', 'A', 'c'], {'f': 'default'}), ('B', ['c'], {'f': 'default'})],
                      note='rules WITHOUT functor with two and three right-side symbols of mixed kinds (needs the aggregate value type)'))
+    G.append(Grammar('tconv', ['E', 'T', 'P'], ['a', 'b', 'c'], 'E', [('E', ['E', 'P', 'T']), ('E', ['T'], {'f': 'e1'}), ('T', ['a'], {'f': 'e1'}), ('P', ['b'], {'f': 'e1'}), ('P', ['c'], {'f': 'default'})],
+                     note='functors whose result type is not the left side\'s value type but ANOTHER value type of the grammar (term_value<unsigned> -> unsigned): the node must be stored as the left side\'s type'))
     G.append(Grammar('e123', ['S', 'P'], ['a', 'b', 'c'], 'S', [('S', ['P', 'b', 'c'], {'f': 'e1'}), ('S', ['a', 'P', 'c'], {'f': 'e2'}), ('S', ['c', 'a', 'P'], {'f': 'e3'}), ('P', ['b']), ('P', ['a', 'a'])], note='helper functors _e1.._e3 and default functors'))
     return G
 
